@@ -7,6 +7,8 @@ from the source text (the repository is never imported):
   * check_uniqueness_constraint:  the null test   `isnull = value is None ; isnull |= (ty.upper() == 'UNIQUE_ID' and not value)`
   * __main__:                     the exit status `sys.exit(num_errors > 0)`, and in `main` the two
                                   `if not opts.rel_ids:` / `if not opts.kinds:` fall-backs
+  * the same two of bridgepoint/consistency_check.py, and for BOTH tools the accumulation tail of `main`
+    (everything between `error = 0` and `return error`) as a list of four possible statements (IR `MainStmt`)
 
 Each is emitted as a Lean function by structural translation of the expression tree
 (and / or / not / comparisons / integer literals / the named atoms); an expression outside that fragment,
@@ -63,6 +65,50 @@ def _func(tree, name):
     raise ValueError('function %s not found' % name)
 
 
+_MAIN_STMTS = {
+    'for rel_id in opts.rel_ids:\n    error += xtuml.check_association_integrity(m, rel_id)': '.forRels',
+    'if not opts.rel_ids:\n    error += xtuml.check_association_integrity(m)': '.ifNoRels',
+    'for kind in opts.kinds:\n    error += xtuml.check_uniqueness_constraint(m, kind)': '.forKinds',
+    'if not opts.kinds:\n    error += xtuml.check_uniqueness_constraint(m)': '.ifNoKinds',
+}
+
+
+def _main_shape(tree, what):
+    """the tail of `main`: everything between `error = 0` and the final `return error` must be one of the four
+    accumulation statements (in any order and number: the emitted list is what the theorem is about)"""
+    f = _func(tree, 'main')
+    srcs = [ast.unparse(st) for st in f.body]
+    if 'error = 0' not in srcs or srcs[-1] != 'return error':
+        raise ValueError('%s main: `error = 0 ... return error` not found' % what)
+    tail = srcs[srcs.index('error = 0') + 1:-1]
+    out = []
+    for st in tail:
+        if st not in _MAIN_STMTS:
+            raise ValueError('%s main: statement outside the translated fragment: %s' % (what, st))
+        out.append(_MAIN_STMTS[st])
+    # nothing before `error = 0` may touch the options or the error count
+    for st in f.body[:srcs.index('error = 0')]:
+        for n in ast.walk(st):
+            if isinstance(n, (ast.Assign, ast.AugAssign, ast.Delete)):
+                tg = n.targets if isinstance(n, (ast.Assign, ast.Delete)) else [n.target]
+                for t in tg:
+                    if 'opts.' in ast.unparse(t) or ast.unparse(t) == 'error':
+                        raise ValueError('%s main: options / error count modified before the checks: %s' % (what, ast.unparse(n)))
+    return '[' + ', '.join(out) + ']'
+
+
+def _exit_expr(tree, what):
+    exits = [n for n in ast.walk(tree) if isinstance(n, ast.Call) and ast.unparse(n.func) == 'sys.exit'
+             and n.args and 'num_errors' in ast.unparse(n.args[0])]
+    if len(exits) != 1:
+        raise ValueError('%s __main__: sys.exit(num_errors …) not found' % what)
+    blocks = [n for n in tree.body if isinstance(n, ast.If) and ast.unparse(n.test) == "__name__ == '__main__'"]
+    if len(blocks) != 1 or [ast.unparse(x) for x in blocks[0].body][:1] != ['num_errors = main(sys.argv[1:])'] \
+            or len(blocks[0].body) != 2 or exits[0] is not getattr(blocks[0].body[1], 'value', None):
+        raise ValueError('%s __main__: not `num_errors = main(sys.argv[1:]); sys.exit(<expr>)`' % what)
+    return T({'num_errors': ('errors', 'nat')}).boolean(exits[0].args[0])
+
+
 def generate(repo_dir):
     src = open(os.path.join(repo_dir, 'xtuml', 'consistency_check.py')).read()
     tree = ast.parse(src)
@@ -103,12 +149,12 @@ def generate(repo_dir):
     for want in ('opts.rel_ids', 'opts.kinds'):
         if want not in loops:
             raise ValueError('main: loop over %s not found' % want)
-    exits = [n for n in ast.walk(tree) if isinstance(n, ast.Call) and ast.unparse(n.func) == 'sys.exit'
-             and n.args and 'num_errors' in ast.unparse(n.args[0])]
-    if len(exits) != 1:
-        raise ValueError('__main__: sys.exit(num_errors …) not found')
-    t3 = T({'num_errors': ('errors', 'nat')})
-    exit_nonzero = t3.boolean(exits[0].args[0])
+    exit_nonzero = _exit_expr(tree, 'xtuml.consistency_check')
+    main_x = _main_shape(tree, 'xtuml.consistency_check')
+    # --- the second tool, bridgepoint/consistency_check.py: same two decisions
+    bp = ast.parse(open(os.path.join(repo_dir, 'bridgepoint', 'consistency_check.py')).read())
+    exit_nonzero_bp = _exit_expr(bp, 'bridgepoint.consistency_check')
+    main_bp = _main_shape(bp, 'bridgepoint.consistency_check')
 
     text = '''/-
   GENERATED by translator/gen_checkcond.py from xtuml/consistency_check.py — do not edit.
@@ -127,6 +173,24 @@ def isNull (v : Option Int) (isUid : Bool) : Bool := %s
 /-- `sys.exit(<this>)`: the process exit status is non-zero exactly when this holds -/
 def exitNonZero (errors : Nat) : Bool := %s
 
+/-- the same expression of bridgepoint/consistency_check.py -/
+def exitNonZeroBp (errors : Nat) : Bool := %s
+
+/-- the accumulation statements of `main` between `error = 0` and `return error`, in source order:
+    forRels   = `for rel_id in opts.rel_ids: error += xtuml.check_association_integrity(m, rel_id)`
+    ifNoRels  = `if not opts.rel_ids: error += xtuml.check_association_integrity(m)`
+    forKinds  = `for kind in opts.kinds: error += xtuml.check_uniqueness_constraint(m, kind)`
+    ifNoKinds = `if not opts.kinds: error += xtuml.check_uniqueness_constraint(m)` -/
+inductive MainStmt where
+  | forRels | ifNoRels | forKinds | ifNoKinds
+  deriving DecidableEq, Repr
+
+/-- xtuml/consistency_check.py -/
+def mainXtuml : List MainStmt := %s
+
+/-- bridgepoint/consistency_check.py -/
+def mainBridgepoint : List MainStmt := %s
+
 end Pyx.Gen.CheckCond
-''' % (violates, isnull, exit_nonzero)
+''' % (violates, isnull, exit_nonzero, exit_nonzero_bp, main_x, main_bp)
     return [('CheckCond.lean', text)]
